@@ -1,11 +1,14 @@
 """C07 – corrupted frames are never executed nor acknowledged: case generation."""
 import random
 from vf import Case
+from gen import constants
 from props import regpcommon as R
 
 ID = "C07"
 DRIVER = "drv_regp"
 HARNESS = "h_regp"
+GEN = [constants.gen]
+TIE = ['Ufw.Tie.Regp']
 RULE = ("serial channel, corpus of well-formed frames of every type (read/write requests and responses in both word sizes, error responses, "
         "meta) with payloads of 0..9 atoms: every single-bit flip of the whole frame, every two-bit flip inside the checksummed fields "
         "(thorough; quick: all pairs of a 3-frame sub-corpus plus 400 random pairs per frame), every burst of length 2..16 (first and last bit flipped, "
